@@ -226,11 +226,14 @@ int node_insert_leaf(BPlusNode *node, PyObject *key, PyObject *value,
         /* Split at midpoint - exactly like Python code */
         int mid = node->capacity / 2;  /* Same as Python: self.capacity // 2 */
 
+        /* The existing entries keep the one reference their slot already owns:
+         * they are moved, not copied.  Only the incoming key and value are new. */
+        Py_INCREF(key);
+        Py_INCREF(value);
+
         /* Keep first half in current node */
         node->num_keys = mid;
         for (int i = 0; i < mid; i++) {
-            Py_INCREF(temp_keys[i]);
-            Py_INCREF(temp_values[i]);
             node_set_key(node, i, temp_keys[i]);
             node_set_value(node, i, temp_values[i]);
         }
@@ -245,8 +248,6 @@ int node_insert_leaf(BPlusNode *node, PyObject *key, PyObject *value,
         int total_items = node->capacity + 1;
         (*new_node)->num_keys = total_items - mid;
         for (int i = 0; i < (*new_node)->num_keys; i++) {
-            Py_INCREF(temp_keys[mid + i]);
-            Py_INCREF(temp_values[mid + i]);
             node_set_key(*new_node, i, temp_keys[mid + i]);
             node_set_value(*new_node, i, temp_values[mid + i]);
         }
